@@ -92,6 +92,17 @@ func NewUnpackInfo(dst string, header *tar.Header) (UnpackInfo, error) {
 		return UnpackInfo{}, fmt.Errorf("failed creating %q, unsupported file type %c", path, result.Typeflag)
 	}
 
+	// A file or directory entry must not land on an existing symlink: creating
+	// the file, or restoring permissions and times on the path, would follow
+	// the link and act on whatever it points to, possibly outside of dst.
+	// (A symlink entry is harmless here: os.Symlink never follows an existing
+	// link and link timestamps are restored without following it.)
+	if !result.IsSymlink() {
+		if fi, err := os.Lstat(path); err == nil && fi.Mode()&fs.ModeSymlink != 0 {
+			return UnpackInfo{}, fmt.Errorf("cannot extract %q over existing symlink", header.Name)
+		}
+	}
+
 	return result, nil
 }
 
